@@ -40,6 +40,8 @@ func (s *Server) isValidRequest(req SignedMessage) error {
 		}
 	}
 
+	verifhook.Point("ctl.auth.afterKeyScan")
+
 	if !allowed {
 		return errDisallowedKey
 	}
